@@ -246,17 +246,19 @@ struct default_color_converter_impl<ycbcr_709__t, rgb_t>
         using src_channel_t = typename channel_type<SRCP>::type;
         using dst_channel_t = typename channel_type<DSTP>::type;
 
-		src_channel_t y           = channel_convert<src_channel_t>( get_color(src,  y_t())       );
-		src_channel_t cb_clipped  = channel_convert<src_channel_t>( get_color(src, cb_t()) - 128 );
-		src_channel_t cr_clipped  = channel_convert<src_channel_t>( get_color(src, cr_t()) - 128 );
+		src_channel_t y  = channel_convert<src_channel_t>( get_color(src,  y_t()) );
 
-		double   red =   y                        +   1.042 * cr_clipped;
+		// the chroma channels are offset by 128; the differences are signed
+		double cb_clipped = get_color(src, cb_t()) - 128.0;
+		double cr_clipped = get_color(src, cr_t()) - 128.0;
+
+		double   red =   y                        +   1.402 * cr_clipped;
 		double green =   y - 0.34414 * cb_clipped - 0.71414 * cr_clipped;
 		double  blue =   y +   1.772 * cb_clipped;
 
-		get_color( dst,   red_t() ) = (dst_channel_t)   red;
-		get_color( dst, green_t() ) = (dst_channel_t) green;
-		get_color( dst,  blue_t() ) = (dst_channel_t)  blue;
+		get_color( dst,   red_t() ) = (dst_channel_t) detail::clamp(  red + 0.5, 0.0, 255.0);
+		get_color( dst, green_t() ) = (dst_channel_t) detail::clamp(green + 0.5, 0.0, 255.0);
+		get_color( dst,  blue_t() ) = (dst_channel_t) detail::clamp( blue + 0.5, 0.0, 255.0);
 	}
 };
 
